@@ -45,6 +45,10 @@ class Out:
             self.samples.append(s)
 
     def violation(self, sig, witness):
+        if sig not in self.viol:
+            # report at once: the observation must survive even if the run dies later
+            print(json.dumps({"t": "viol", "property": self.prop, "monitor": self.monitor, "sig": sig, "count": 1, "witness": witness}, default=str))
+            sys.stdout.flush()
         e = self.viol.setdefault(sig, [0, witness])
         e[0] += 1
 
@@ -55,8 +59,7 @@ class Out:
         self.extra[k] = v
 
     def finish(self):
-        for sig, (n, w) in sorted(self.viol.items()):
-            print(json.dumps({"t": "viol", "property": self.prop, "monitor": self.monitor, "sig": sig, "count": n, "witness": w}, default=str))
+        print(json.dumps({"t": "violcounts", "counts": {sig: n for sig, (n, w) in self.viol.items()}}))
         print(json.dumps({"t": "summary", "property": self.prop, "monitor": self.monitor, "evaluations": self.evaluations,
                           "distinct": len(self.distinct), "rule": self.rule, "samples": self.samples, "extra": self.extra,
                           "inconclusive": self.inconclusive}, default=str))
